@@ -595,6 +595,30 @@ def oracle_c17(line, m, impl, model):
     return None
 
 
+def many_comment_cases(rng, n, prefix="mc"):
+    """documents with many ordinary comments in the tool's delimiters (tags that are never closed, or
+    that do not parse to elements) in front of ready / pending elements"""
+    cases, meta = [], {}
+    e, f = G.EXPIRED, G.FUTURE
+    for i in range(n):
+        ds, de = rng.choice(G.DELIMS)
+        k = rng.choice([30, 64, 65, 90, 150])
+        lines = []
+        for j in range(k):
+            c = rng.choice([f"step{j}", "TODO: x", "note", "---", f"/old{j}"])
+            lines.append(rng.choice(["", "  "]) + ds + c + de + rng.choice(["", " code();"]))
+            if rng.random() < 0.3:
+                lines.append("code();")
+        lines.append(ds + f"tl {rng.choice([e, f])}" + de)
+        lines.append("body();")
+        lines.append(ds + "/tl" + de)
+        lines.append("tail();")
+        cid = f"{prefix}{i}"
+        cases.append(G.dcase(cid, ds, de, "\n".join(lines) + "\n", G.Cfg(targets=("x",))))
+        meta[cid] = {"stream": "many-comments", "strict": False}
+    return cases, meta
+
+
 def wrapper_tag_cases(rng, n, prefix="wt"):
     """ready unwrap-block elements with the tags of other (pending / ready) elements ON their wrapper
     lines (outside the C15 space: only the clauses proved for every source are applied to them)"""
@@ -722,7 +746,8 @@ def gen_front(rng, tier, pairs=None, exh_len=None):
 def gen_docs(rng, tier, n_quick=2500, n_thorough=40000, **kw):
     n = n_quick if tier == "quick" else n_thorough
     ex = exhaustive_cases(rng, "x", [("<", ">"), ("|", "|")], 3 if tier == "quick" else 4)
-    return merge(corpus_cases(), ex, doc_cases(rng, n, "d", **kw), wrapper_tag_cases(rng, 300 if tier == "quick" else 3000, "wtg"))
+    return merge(corpus_cases(), ex, doc_cases(rng, n, "d", **kw), wrapper_tag_cases(rng, 300 if tier == "quick" else 3000, "wtg"),
+                 many_comment_cases(rng, 12 if tier == "quick" else 200))
 
 
 TAG_VALUES = ["", "v", "a b", "x=y", "it's", 'say "hi"', "skip", "unwrap-block", "a\nb", "<", "/* <", "to", "あ", "  ", "name=x skip"]
@@ -809,6 +834,23 @@ def gen_c10(rng, tier):
         s = "".join(rng.choice(atoms) for _ in range(n))
         cases.append(G.dcase(f"r{i}", "<", ">", s, G.Cfg(tl="a", rm="b")))
         meta[f"r{i}"] = {"stream": "random"}
+    # long sequences: many inert tags (never closed openers, stray closers) or deep genuine nesting in
+    # front of / around well-formed elements (a bound on the number of pending tags would show here)
+    for i in range(120 if tier == "quick" else 1500):
+        n = rng.choice([40, 63, 64, 65, 100, 130, 200, 257, 300])
+        kind = rng.randrange(4)
+        if kind == 0:
+            pre = "".join(rng.choice(["<b>", "<c>", "<b k='1'>"]) for _ in range(n))
+        elif kind == 1:
+            pre = "".join(rng.choice(["</z>", "</b>", "<//q>"]) for _ in range(n))
+        elif kind == 2:
+            pre = "".join(rng.choice(["<b>", "</z>", "t", "<c>"]) for _ in range(n))
+        else:
+            pre = "<b>" * n          # closed again below: genuine nesting of depth n
+        mid = rng.choice(["<a>x</a>", "<b><a>x</a></b>", "<a>x<a>y</a>z</a>", "t<a></z>x</a>t"])
+        post = ("</b>" * n if kind == 3 else "") + rng.choice(["", "<a>w</a>", "</a>"])
+        cases.append(G.dcase(f"L{i}", "<", ">", pre + mid + post, G.Cfg(tl="a", rm="b")))
+        meta[f"L{i}"] = {"stream": "long"}
     docs = doc_cases(rng, 300 if tier == "quick" else 3000, "d", p_mut=0.6, safe=False)
     return merge(corpus_cases(), (cases, meta), docs)
 
